@@ -1,3 +1,10 @@
+// Under the verification cfg every `println!` of the crate is a scheduling point of the
+// deterministic scheduler (the progress report is an observable action of a worker).
+#[cfg(torrent_bootstrap_verif)]
+macro_rules! println {
+    ($($arg:tt)*) => {{ crate::verif::sched::yield_point(); ::std::println!($($arg)*) }};
+}
+
 mod finder;
 mod torrent;
 mod orchestrator;
